@@ -4,8 +4,8 @@
 #   demo passes on unchanged source, fails with the change; existing suite still passes with the change;
 #   then runs ./check <ID> against a scratch copy with the change applied.  Stores everything under
 #   /verif/seeded/<ID>-<i>/ (patch.diff, demo.py, meta.json incl. what was run and whether the check caught it).
-ID="$1"; WT="$2"; I="$3"; TIER="${4:-quick}"
-OUT=/verif/seeded/$ID-$I; mkdir -p "$OUT"
+ID="$1"; WT="$2"; I="$3"; TIER="${4:-quick}"; N="${5:-$I}"   # N = index under seeded/ (second rounds: 4..6)
+OUT=/verif/seeded/$ID-$N; mkdir -p "$OUT"
 cp "$WT/out/change$I.diff" "$OUT/patch.diff" || exit 2
 cp "$WT/out/demo$I.py" "$OUT/demo.py" || exit 2
 cp "$WT/out/meta$I.json" "$OUT/meta_agent.json" 2>/dev/null
